@@ -294,11 +294,12 @@ def _timer_contract(vc, has_interval, has_idle, sharp_values):
         'application.patch_and_check': patch_and_check,
         'patches.Patch': Patch,
     }, loops=({
-        1: LoopSpec('while not stopper.is_set():', invariant=inv_main, havoc=havoc_main, at_backedge=back_main, on_exit=exit_main, at_entry=entry_main,
+        1: LoopSpec('while not stopper.is_set():', name='main loop', invariant=inv_main, havoc=havoc_main, at_backedge=back_main, on_exit=exit_main, at_entry=entry_main,
                     dedup_key=lambda loc: (initial_delay is None,)),
-        2: LoopSpec('while not stopper.is_set() and clock() - memory.idle_reset_time < handler.idle', invariant=inv_wait,
+        2: LoopSpec('while not stopper.is_set() and', invariant=inv_wait, name='idle wait before a run',
                     havoc=havoc_wait, at_backedge=back_wait),
-        3: LoopSpec('while memory.idle_reset_time <= started', invariant=inv_wait, havoc=havoc_wait, at_backedge=back_wait),
+        3: LoopSpec('while memory.idle_reset_time', invariant=inv_wait, havoc=havoc_wait, at_backedge=back_wait,
+                    name='idle-only wait for a change'),
     }))
     # before the loop: the initial delay
     if initial_delay is not None:
